@@ -167,8 +167,13 @@ def onObs (o : Oracle) (op : List String) (cmdAfter : List String)
   | ["launch", x] =>
     let d := decl o x
     -- C01: every dependency that was found registered must have met its condition
-    let gate := d.deps.filterMap fun (k, c) =>
-      if o.found.contains (x, k) && !gateMet o k c then some s!"C01:launch-before-condition {x} needs {k}:{c}" else none
+    let gate := (d.deps.filterMap fun (k, c) =>
+      if o.found.contains (x, k) && !gateMet o k c then
+        some ([s!"C01:launch-before-condition {x} needs {k}:{c}"] ++
+          -- the dependency has ended or was stopped without satisfying the condition: C05 demands a skip
+          (if o.doneEver.contains k || o.everStopped.contains k || o.stopBegun.contains k then
+            [s!"C05:launched-despite-unsatisfied-dependency {x} needs {k}:{c}"] else []))
+      else none).flatten
     -- C02/C03/C08: no launch after a served stop / shutdown without a new start
     let afterStop := if o.stopReq.contains x then
         [s!"C02:launch-after-stop {x}", s!"C08:launch-after-stop {x}"] ++
